@@ -704,6 +704,13 @@ static int reftable_reader_refs_for_unindexed(struct reftable_reader *r,
 	int oid_len = hash_size(r->hash_id);
 	int err;
 
+	if (!r->ref_offsets.is_present) {
+		/* no ref blocks at all. */
+		reftable_free(ti);
+		iterator_set_empty(it);
+		return 0;
+	}
+
 	*ti = ti_empty;
 	err = reader_start(r, ti, BLOCK_TYPE_REF, 0);
 	if (err < 0) {
